@@ -70,7 +70,7 @@ def _default_summaries(ctx):
 
 def run(ctx):
     for fn in (r1_escape_parse, r2_containment, r3_style_dispatch, r4_collection_continues, r5_variants, r6_directives_checked_at_parse_time,
-               r7_error_constructor_total, r8_line_table_covers_ast_lines, r2b_containment_handler_is_total, r9_lookahead_in_bounds):
+               r7_error_constructor_total, r8_line_table_covers_ast_lines, r2b_containment_handler_is_total, r9_lookahead_in_bounds, r10_docstring_locator_indices_in_bounds):
         ctx.rep.rule(fn, ctx)
 
 
@@ -823,12 +823,68 @@ def r9_lookahead_in_bounds(ctx):
     rep.floor('C14.R9', 'look-ahead subscripts in split_google_docblocks', n_sub, 2)
 
 
+def r10_docstring_locator_indices_in_bounds(ctx):
+    """BOUNDS: the docstring locators of the static collector compute a candidate line index from the number of newline characters in the docstring
+    VALUE (`stop - nlines - 1`, `start + nlines`).  That count is not bounded by the number of source lines -- "\\n" escapes in a non-raw
+    docstring are newlines of the value but not of the source -- so the candidate has to be range-checked before it indexes the line table:
+    unchecked, a long enough run of escapes raises IndexError (collection of the whole module aborts) and a shorter one silently wraps around"""
+    rep = ctx.rep
+    V = 'xdoctest.static_analysis.TopLevelVisitor'
+    n_idx = 0
+    for name in ('_find_docstr_startpos_workaround', '_find_docstr_endpos_workaround'):
+        f = ctx.func(V + '.' + name)
+        g = ctx.cfg(f)
+        rd = ctx.rd(f)
+        dom = ctx.dom(g, g.entry)
+        params = [a.arg for a in f.node.args.args]
+        counts = {d.name for d in rd.defs if isinstance(d.value, ast.Call) and isinstance(d.value.func, ast.Attribute) and d.value.func.attr == 'count'}
+        need(counts, 'C14.R10: the newline count of the docstring was not found in %s' % name)
+        for n in g.nodes:
+            if n.dup or n.kind not in ('stmt', 'test') or not isinstance(n.ast, ast.AST):
+                continue
+            for x in ast.walk(n.ast):
+                if not (isinstance(x, ast.Subscript) and isinstance(x.ctx, ast.Load) and isinstance(x.value, ast.Name) and x.value.id in params and isinstance(x.slice, ast.Name)):
+                    continue
+                idx = x.slice.id
+                defs = rd.at(n, idx)
+                derived = [d for d in defs if isinstance(d.value, ast.BinOp) and any(isinstance(y, ast.Name) and y.id in counts for y in ast.walk(d.value))]
+                if not derived:
+                    continue
+                n_idx += 1
+                minus = any(isinstance(y, ast.Sub) for d in derived for y in ast.walk(d.value))
+                plus = any(isinstance(y, ast.Add) for d in derived for y in ast.walk(d.value))
+                facts = [fa for fa in graph.guard_facts(dom, n) if fa.polarity in (True, False) and isinstance(fa.expr, ast.Compare) and len(fa.expr.ops) == 1]
+                lo_ok = hi_ok = False
+                for fa in facts:
+                    e, op = fa.expr, type(fa.expr.ops[0])
+                    l, r = e.left, e.comparators[0]
+                    zero = lambda z: isinstance(z, ast.Constant) and z.value == 0
+                    is_len = lambda z: isinstance(z, ast.Call) and is_name(z.func, 'len') and z.args and is_name(z.args[0], x.value.id)
+                    if is_name(l, idx) and zero(r):
+                        lo_ok = lo_ok or (op is ast.GtE and fa.polarity is True) or (op is ast.Lt and fa.polarity is False)
+                    if zero(l) and is_name(r, idx):
+                        lo_ok = lo_ok or (op is ast.LtE and fa.polarity is True) or (op is ast.Gt and fa.polarity is False)
+                    if is_name(l, idx) and is_len(r):
+                        hi_ok = hi_ok or (op is ast.Lt and fa.polarity is True) or (op is ast.GtE and fa.polarity is False)
+                    if is_len(l) and is_name(r, idx):
+                        hi_ok = hi_ok or (op is ast.Gt and fa.polarity is True) or (op is ast.LtE and fa.polarity is False)
+                ok = (lo_ok or not minus) and (hi_ok or not plus)
+                rep.ob('C14.R10', ctx.loc(f, x), '%s with %s = %s' % (ctx.src(x), idx, ctx.src(derived[0].value)), ok,
+                       'the candidate index is range-checked before it is used' if ok else
+                       'the candidate index is computed from the number of newline characters in the docstring value and used unchecked (%s): a docstring with "\\n" escapes has more of them '
+                       'than source lines, the index leaves the table (IndexError: the module is not collected at all) or wraps around to an unrelated line' %
+                       ('it can be negative' if minus and not lo_ok else 'it can exceed the table'), anchor=f.qualname)
+    rep.floor('C14.R10', 'line-table subscripts by a candidate derived from the newline count', n_idx, 2)
+
+
 # ---------------------------------------------------------------------------
 from ..selftest import fire, silent      # noqa: E402
 
 PA = 'xdoctest/parser.py'
 CO = 'xdoctest/core.py'
 VARIANTS = [
+    fire('revert-fix-F14-locator-candidate-unchecked', 'C14.R10', ('xdoctest/static_analysis.py', "                if cand_start_ < 0:\n", "                if False:\n")),
+    fire('locator-candidate-checked-against-the-wrong-end', 'C14.R10', ('xdoctest/static_analysis.py', "                if cand_start_ < 0:\n", "                if cand_start_ >= len(sourcelines):\n")),
     fire('warning-text-formatted-after-user-text-was-appended', 'C14.R2b', ('xdoctest/core.py', "        msg = msg.format(callname, modpath, lineno, repr(ex))\n        if isinstance(ex, exceptions.DoctestParseError):\n", "        if isinstance(ex, exceptions.DoctestParseError):\n"),
          ('xdoctest/core.py', "        # Always warn when something bad is happening.\n", "        msg = msg.format(callname, modpath, lineno, repr(ex))\n        # Always warn when something bad is happening.\n")),
     fire('caret-help-guarded-by-another-attribute', 'C14.R2b', ('xdoctest/core.py', "                if ex.orig_ex.text:\n", "                if ex.orig_ex.msg:\n")),
